@@ -107,11 +107,24 @@ def builtin_losses(D: int, rng: random.Random):  # noqa: N803
         ("msm-standardise", lambda cw=None: MethodOfMomentsLoss(covariance_mat="identity", standardise_moments=True, coordinate_weights=cw), True, False, True),
         ("fourier-ideal", lambda cw=None: FourierLoss(frequency_filter=ideal_low_pass_filter, f=0.8, coordinate_weights=cw), True, True, True),
         ("fourier-gauss", lambda cw=None: FourierLoss(frequency_filter=gaussian_low_pass_filter, f=0.6, coordinate_weights=cw), True, True, True),
+        # user-supplied plug-ins that return (a view of) their argument: whatever the loss does to their result must not reach the data
+        ("msm-identity-calculator", lambda cw=None: MethodOfMomentsLoss(covariance_mat="identity", moment_calculator=_ident, coordinate_weights=cw), True, True, True),
+        ("msm-view-calculator-standardised", lambda cw=None: MethodOfMomentsLoss(covariance_mat="identity", moment_calculator=_head, standardise_moments=True, coordinate_weights=cw), True, False, True),
+        ("msm-identity-filters", lambda cw=None: MethodOfMomentsLoss(covariance_mat="identity", coordinate_filters=[_ident] * D, coordinate_weights=cw), True, True, True),
+        ("fourier-identity-filters", lambda cw=None: FourierLoss(frequency_filter=gaussian_low_pass_filter, f=0.6, coordinate_filters=[_ident] * D, coordinate_weights=cw), True, True, True),
         ("gsl", lambda cw=None: GslDivLoss(nb_values=nbv, coordinate_weights=cw), False, False, True),
         # LikelihoodLoss overrides compute_loss (a joint D-dimensional kernel density; it ignores the weights with a warning): the
         # weighted-sum clause is about losses evaluated through the base-class fold and is not checked for it
         ("likelihood", lambda cw=None: LikelihoodLoss(), False, False, False),
     ], w
+
+
+def _ident(x):
+    return x
+
+
+def _head(x):
+    return x[:6]
 
 
 def close(a, b, rtol=1e-10) -> bool:
